@@ -45,7 +45,8 @@ in every mode only because `Sensible` (C19Argv) bundles it.
 
 Outside: every NON-canonical spelling pico_args accepts (`-d:`, `--delimiter=:`, clusters `-gp`,
 repeated options, values that look like options such as `-d -` or `-l -1`, `-h`/`-V`) — covered
-only by the differential test of the argv model (`tool/argv_diff.py`, K-argv), not by a theorem;
+only by the differential test of the argv model (`tool/argv_diff.py`, K-argv), not by a theorem
+(at the argv layer alone, bounds values that start with `-` are: `parseArgv_canonB` of C19Argv);
 `-e RE` (regex delimiters: `Re.parse` is a `partial def`, C16 is per-record); read and write
 faults, short writes and the `BufWriter` (C12/C14: `deliver`, `dispatchReadFault`, not part of
 `tucMain`); argv that is not UTF-8; the regex engine's verdict `regexOk`.
